@@ -6,7 +6,11 @@
    Part 4  M3 booleans in files
    Part 5  M4 interpolation
    Part 6  fuel
-   Part 7  the command line (argparse model) on well-formed command lines *)
+   Part 7  the command line (argparse model) on well-formed command lines
+   Part 8  well-formed tables, defaults    Part 9  assignment
+   Part 10 main() from the command line as typed (hypotheses of Parts 3/7 discharged from wf_config)
+   Part 11 list entries as written (shlex round trip)    Part 12 integers (decimal round trip)
+   Part 13 dictionary lines as written (k1=v1, k2=v2 round trip) *)
 From Coq Require Import List ZArith Bool Lia Arith.
 Import ListNotations.
 From Verif Require Import Val Config.
@@ -1382,4 +1386,526 @@ Proof.
   - exists o. split; [reflexivity|]. eapply opt_at_set_same. exact K.
   - intros s' k' N. apply opt_at_set_other. exact N.
   - eapply set_at_shape; [exact K|reflexivity].
+Qed.
+
+(* ================================================================================================= *)
+(* Part 10: the whole of main() on a well-formed command line -- the hypotheses of Parts 3 and 7 discharged from wf_config *)
+
+Lemma bind_ret : forall A (r : res A), bind r (fun a => Ok a) = r.
+Proof. intros A [a|k| |]; reflexivity. Qed.
+
+(* the equational form of consume_items: no assumption that the actions succeed *)
+Lemma consume_items_eq : forall tbl items p d npos,
+  wf_items tbl (pending_open p) items ->
+  (match p with Some (a, got) => enough (act_nargs a) (length got) = true | None => True end) ->
+  consume (flat_map cl_item items) p d npos =
+  bind (finish p d) (fun d0 => bind (foldR step_item items d0) (fun d1 =>
+    if Nat.eqb (npos + count_pos items) 1 then Ok d1 else Crash SystemExit)).
+Proof.
+  intros tbl. induction items as [|[flag a args|s] r IH]; intros p d npos W E; cbn [flat_map cl_item count_pos].
+  - cbn [consume foldR]. destruct (finish p d) as [d0|k| |]; cbn; try reflexivity. rewrite Nat.add_0_r. reflexivity.
+  - cbn in W. destruct W as [W1 [W2 [W3 [W4 W5]]]].
+    cbn [app consume]. destruct (finish p d) as [d0|k| |]; cbn [bind]; try reflexivity.
+    rewrite consume_args; [|intros i Hi; cbn; eapply enough_can_take; eassumption].
+    cbn [app]. rewrite (IH (Some (a, args)) d0 npos W5 W4). cbn [finish]. rewrite W4. cbn [foldR step_item].
+    rewrite bind_assoc. reflexivity.
+  - cbn in W. destruct W as [W1 [W2 W3]]. cbn [app consume foldR step_item].
+    replace (npos + S (count_pos r))%nat with (S npos + count_pos r)%nat by lia.
+    destruct p as [[a got]|].
+    + cbn in W2. rewrite W2. destruct (finish (Some (a, got)) d) as [d0|k| |]; cbn [bind]; try reflexivity.
+      rewrite (IH None d0 (S npos) W3 Logic.I). reflexivity.
+    + rewrite (IH None d (S npos) W3 Logic.I). reflexivity.
+Qed.
+
+Theorem parse_args_eq : forall tbl items,
+  wf_items tbl false items -> count_pos items = 1%nat -> parse_args tbl (argv_of items) = foldR step_item items [].
+Proof.
+  intros tbl items W C. unfold parse_args. rewrite (classify_items _ _ _ W). cbn [bind].
+  rewrite (consume_items_eq tbl items None [] 0 W Logic.I). cbn [finish bind]. rewrite C. cbn. apply bind_ret.
+Qed.
+
+(* ---- which actions a well-formed table registers under a dest ---- *)
+Definition all_opts (cfg : config) : list opt := flat_map (fun s => map snd (snd s)) cfg.
+Definition builtin_actions : list (str * act) :=
+  [(L_mh, AHelp); (L_mmhelp, AHelp); (L_mmconfig, AAppend L_config N1); (L_mc, AAppend L_config N1)].
+
+Lemma NoDup_map_inj : forall A B (f : A -> B) l x y, NoDup (map f l) -> In x l -> In y l -> f x = f y -> x = y.
+Proof.
+  intros A B f. induction l as [|a l IH]; intros x y ND Hx Hy E; [contradiction|].
+  cbn in ND. inversion ND as [|? ? NI ND']; subst.
+  destruct Hx as [Hx|Hx]; destruct Hy as [Hy|Hy]; subst.
+  - reflexivity.
+  - exfalso. apply NI. rewrite E. apply in_map. exact Hy.
+  - exfalso. apply NI. rewrite <- E. apply in_map. exact Hx.
+  - eapply IH; eassumption.
+Qed.
+
+Lemma names_all_opts : forall cfg,
+  flat_map (fun s => map (fun ko => o_name (o_static (snd ko))) (snd s)) cfg = map (fun o => o_name (o_static o)) (all_opts cfg).
+Proof.
+  induction cfg as [|[s opts] cfg IH]; cbn; [reflexivity|]. unfold all_opts in *. cbn. rewrite map_app, map_map, IH. reflexivity.
+Qed.
+
+Lemma in_all_opts : forall cfg sec opts key o, assoc sec cfg = Some opts -> assoc key opts = Some o -> In o (all_opts cfg).
+Proof.
+  intros cfg sec opts key o A K. apply assoc_in in A. apply assoc_in in K. unfold all_opts. apply in_flat_map.
+  exists (sec, opts). split; [exact A|]. cbn. apply in_map_iff. exists (key, o). auto.
+Qed.
+
+Lemma in_all_actions : forall cfg fa, In fa (all_actions cfg) ->
+  In fa builtin_actions \/ exists o, In o (all_opts cfg) /\ In fa (opt_actions o).
+Proof.
+  intros cfg fa H. unfold all_actions in H. apply in_app_or in H. destruct H as [H|H]; [left; exact H|right].
+  apply in_flat_map in H. destruct H as [[s opts] [I1 I2]]. apply in_flat_map in I2. destruct I2 as [[k o] [I3 I4]].
+  exists o. split; [|exact I4]. unfold all_opts. apply in_flat_map. exists (s, opts). split; [exact I1|]. cbn. apply in_map_iff. exists (k, o). auto.
+Qed.
+
+(* every action an option registers carries the option's name as dest, and has the shape of its class *)
+Definition act_for_cls (c : cls) (a : act) : bool :=
+  match c with
+  | CStr | CInt | CFloat | CBool => scalar_act a
+  | CMulti | CDict _ _ => append_act a
+  end.
+
+Lemma opt_actions_dest : forall o fa, In fa (opt_actions o) ->
+  act_dest (snd fa) = Some (o_name (o_static o)) /\ act_for_cls (o_cls (o_static o)) (snd fa) = true.
+Proof.
+  intros o fa H. unfold opt_actions in H. destruct (o_cls (o_static o)) as [| | | | |ek st]; cbn [act_for_cls].
+  1-3: apply in_map_iff in H; destruct H as [f [E _]]; subst fa; cbn; auto.
+  - apply in_app_or in H. destruct H as [H|H]; apply in_map_iff in H; destruct H as [f [E _]]; subst fa; cbn; auto.
+  - apply in_map_iff in H; destruct H as [f [E _]]; subst fa; cbn; auto.
+  - destruct st; apply in_map_iff in H; destruct H as [f [E _]]; subst fa; cbn; auto.
+Qed.
+
+Lemma wf_config_names : forall cfg, wf_config cfg = true ->
+  NoDup (L_config :: map (fun o => o_name (o_static o)) (all_opts cfg)).
+Proof.
+  intros cfg W. unfold wf_config in W. apply andb_true_iff in W. destruct W as [_ W].
+  rewrite names_all_opts in W. apply nodupb_NoDup. exact W.
+Qed.
+
+(* the actions registered under the dest of an option of a well-formed table are that option's own *)
+Lemma wf_actions_for_option : forall cfg o flag a,
+  wf_config cfg = true -> In o (all_opts cfg) -> assoc flag (all_actions cfg) = Some a ->
+  for_dest (o_name (o_static o)) a = true -> act_for_cls (o_cls (o_static o)) a = true.
+Proof.
+  intros cfg o flag a W I A FD. assert (ND := wf_config_names _ W). inversion ND as [|? ? NI ND']; subst.
+  apply assoc_in in A. apply in_all_actions in A. unfold for_dest in FD.
+  destruct A as [B|[o2 [I2 A2]]].
+  - cbn in B. destruct B as [B|[B|[B|[B|[]]]]]; inversion B; subst; cbn [act_dest] in FD; try discriminate.
+    + apply str_eqb_eq in FD. exfalso. apply NI. rewrite FD. apply in_map_iff. exists o. auto.
+    + apply str_eqb_eq in FD. exfalso. apply NI. rewrite FD. apply in_map_iff. exists o. auto.
+  - destruct (opt_actions_dest _ _ A2) as [D C]. cbn in D, C. rewrite D in FD. apply str_eqb_eq in FD.
+    assert (E : o2 = o) by (eapply (NoDup_map_inj _ _ (fun o => o_name (o_static o))); eassumption). subst o2. exact C.
+Qed.
+
+Lemma wf_actions_config : forall cfg flag a,
+  wf_config cfg = true -> assoc flag (all_actions cfg) = Some a -> for_dest L_config a = true -> a = AAppend L_config N1.
+Proof.
+  intros cfg flag a W A FD. assert (ND := wf_config_names _ W). inversion ND as [|? ? NI ND']; subst.
+  apply assoc_in in A. apply in_all_actions in A. unfold for_dest in FD.
+  destruct A as [B|[o2 [I2 A2]]].
+  - cbn in B. destruct B as [B|[B|[B|[B|[]]]]]; inversion B; subst; cbn [act_dest] in FD; try discriminate; reflexivity.
+  - destruct (opt_actions_dest _ _ A2) as [D C]. cbn in D. rewrite D in FD. apply str_eqb_eq in FD.
+    exfalso. apply NI. rewrite <- FD. apply in_map_iff. exists o2. auto.
+Qed.
+
+(* the occurrences of a well-formed command line use registered option strings *)
+Lemma occs_for_registered : forall tbl name items open a args,
+  wf_items tbl open items -> In (a, args) (occs_for name items) ->
+  exists flag, assoc flag tbl = Some a /\ for_dest name a = true /\ enough (act_nargs a) (length args) = true.
+Proof.
+  intros tbl name. induction items as [|[flag a0 args0|s] r IH]; intros open a args W I; cbn in *; [contradiction| |].
+  - destruct W as [W1 [W2 [W3 [W4 W5]]]]. destruct (for_dest name a0) eqn:FD.
+    + destruct I as [I|I]; [inversion I; subst; exists flag; auto|eapply IH; eassumption].
+    + eapply IH; eassumption.
+  - destruct W as [_ [_ W]]. eapply IH; eassumption.
+Qed.
+
+(* ---- the --config / -c occurrences ---- *)
+Definition config_names (items : list item) : list str := concat (map snd (occs_for L_config items)).
+Definition strs_of (v : option argval) : list str := match v with Some (DStrs l) => l | _ => [] end.
+
+Lemma data_config : forall items d d',
+  foldR step_item items d = Ok d' ->
+  (forall a args, In (a, args) (occs_for L_config items) -> a = AAppend L_config N1) ->
+  (assoc L_config d = None \/ exists l, assoc L_config d = Some (DStrs l)) ->
+  match occs_for L_config items with
+  | [] => assoc L_config d' = assoc L_config d
+  | _ => assoc L_config d' = Some (DStrs (strs_of (assoc L_config d) ++ config_names items))
+  end.
+Proof.
+  unfold config_names. induction items as [|[flag a args|s] r IH]; intros d d' H SC Hd; cbn [foldR step_item] in H.
+  - inversion H; subst. reflexivity.
+  - apply bind_ok in H. destruct H as [d1 [H1 H2]]. cbn [occs_for] in *. destruct (for_dest L_config a) eqn:FD.
+    + assert (SA := SC a args (or_introl eq_refl)). subst a.
+      assert (E1 : exists s, args = [s] /\ assoc L_config d1 = Some (DStrs (strs_of (assoc L_config d) ++ [s]))).
+      { cbn [take_action] in H1. destruct args as [|s [|s2 rest]].
+        - destruct (assoc L_config d); discriminate.
+        - exists s. split; [reflexivity|]. destruct Hd as [Hd|[l Hd]]; rewrite Hd in H1 |- *; inversion H1; subst; cbn [strs_of app]; apply assoc_dset_same.
+        - destruct (assoc L_config d); discriminate. }
+      destruct E1 as [s [EA E1]]. subst args.
+      assert (IHr := IH _ _ H2 (fun a0 args0 I => SC a0 args0 (or_intror I)) (or_intror (ex_intro _ _ E1))).
+      rewrite E1 in IHr. cbn [strs_of] in IHr. cbn [map snd concat]. destruct (occs_for L_config r) as [|o1 os].
+      * rewrite IHr. reflexivity.
+      * rewrite IHr. rewrite <- app_assoc. reflexivity.
+    + assert (E := take_action_other _ _ _ _ _ H1 FD).
+      assert (IHr := IH _ _ H2 SC). rewrite E in IHr. apply IHr. exact Hd.
+  - apply IH; assumption.
+Qed.
+
+Lemma config_files_of_items : forall cfg f items d,
+  wf_config cfg = true -> wf_items (all_actions cfg) false items -> foldR step_item items [] = Ok d ->
+  config_files f d = Ok (map (fs_lookup f) (config_names items)).
+Proof.
+  intros cfg f items d W WI H.
+  assert (X := data_config items [] d H).
+  assert (SC : forall a args, In (a, args) (occs_for L_config items) -> a = AAppend L_config N1).
+  { intros a args I. destruct (occs_for_registered _ _ _ _ _ _ WI I) as [flag [A [FD _]]]. eapply wf_actions_config; eassumption. }
+  specialize (X SC (or_introl eq_refl)). unfold config_files, config_names in *.
+  destruct (occs_for L_config items) as [|o1 os]; rewrite X; reflexivity.
+Qed.
+
+(* ---- M8: main() from the command line as typed, scalars ---- *)
+(* Spec: the value a scalar option has after main(), as a function of what the user wrote *)
+Definition spec_main_scalar (fx : bool) (o : opt) (key : str) (file_lines : list (str * str)) (items : list item) : res value :=
+  match last_opt (occs_for (o_name (o_static o)) items) with
+  | Some (a, args) => v <- occ_result a args ;; value_of_argval v
+  | None =>
+      match last_opt (strings_for key file_lines) with
+      | Some s => conv fx (o_cls (o_static o)) s
+      | None => Ok (o_value o)
+      end
+  end.
+
+Theorem main_scalar : forall fx cfg f items cfg' sec key opts o,
+  wf_config cfg = true -> wf_items (all_actions cfg) false items -> count_pos items = 1%nat ->
+  main fx cfg f (argv_of items) = Ok cfg' ->
+  assoc sec cfg = Some opts -> assoc key opts = Some o -> scalar (o_cls (o_static o)) = true ->
+  exists o', opt_at cfg' sec key = Some o' /\ o_static o' = o_static o /\
+    Ok (o_value o') = spec_main_scalar fx o key (section_items sec (map (fs_lookup f) (config_names items))) items.
+Proof.
+  intros fx cfg f items cfg' sec key opts o W WI C H A K S.
+  unfold main in H. rewrite (parse_args_eq _ _ WI C) in H. apply bind_ok in H. destruct H as [d [HD HL]].
+  destruct (layering_scalar_wf fx cfg f d cfg' sec key opts o W HL A K S) as [files [o' [F [R [ST V]]]]].
+  rewrite (config_files_of_items cfg f items d W WI HD) in F. inversion F; subst files.
+  exists o'. split; [exact R|]. split; [exact ST|]. rewrite V. unfold spec_main_scalar.
+  assert (DS := data_scalar (o_name (o_static o)) items [] d HD).
+  assert (SC : forall a args, In (a, args) (occs_for (o_name (o_static o)) items) -> scalar_act a = true).
+  { intros a args I. destruct (occs_for_registered _ _ _ _ _ _ WI I) as [flag [AF [FD _]]].
+    assert (X := wf_actions_for_option cfg o flag a W (in_all_opts _ _ _ _ _ A K) AF FD).
+    destruct (o_cls (o_static o)); try discriminate; exact X. }
+  specialize (DS SC). destruct (last_opt (occs_for (o_name (o_static o)) items)) as [[a args]|].
+  - destruct DS as [v [OR AV]]. rewrite AV, OR. reflexivity.
+  - rewrite DS. reflexivity.
+Qed.
+
+(* ---- M8, lists ---- *)
+Theorem main_list : forall fx cfg f items cfg' sec key opts o,
+  wf_config cfg = true -> wf_items (all_actions cfg) false items -> count_pos items = 1%nat ->
+  main fx cfg f (argv_of items) = Ok cfg' ->
+  assoc sec cfg = Some opts -> assoc key opts = Some o -> o_cls (o_static o) = CMulti ->
+  exists o' l0 wss, opt_at cfg' sec key = Some o' /\ o_value o = VList l0 /\
+    Forall2 (fun s ws => shlex_split s = Ok ws)
+            (strings_for key (section_items sec (map (fs_lookup f) (config_names items)))) wss /\
+    o_value o' = VList (l0 ++ concat wss ++ concat (map snd (occs_for (o_name (o_static o)) items))).
+Proof.
+  intros fx cfg f items cfg' sec key opts o W WI C H A K CM.
+  unfold main in H. rewrite (parse_args_eq _ _ WI C) in H. apply bind_ok in H. destruct H as [d [HD HL]].
+  destruct (layering_list_wf fx cfg f d cfg' sec key opts o W HL A K CM) as [files [o' [l0 [wss [F [R [ST [V0 [F2 V]]]]]]]]].
+  rewrite (config_files_of_items cfg f items d W WI HD) in F. inversion F; subst files.
+  exists o', l0, wss. split; [exact R|]. split; [exact V0|]. split; [exact F2|]. rewrite V. do 2 f_equal.
+  assert (DA := data_append (o_name (o_static o)) items [] d HD).
+  assert (SC : forall a args, In (a, args) (occs_for (o_name (o_static o)) items) -> append_act a = true).
+  { intros a args I. destruct (occs_for_registered _ _ _ _ _ _ WI I) as [flag [AF [FD _]]].
+    assert (X := wf_actions_for_option cfg o flag a W (in_all_opts _ _ _ _ _ A K) AF FD). rewrite CM in X. exact X. }
+  specialize (DA SC (or_introl eq_refl)). unfold cmd_words.
+  destruct (occs_for (o_name (o_static o)) items) as [|o1 os]; rewrite DA; reflexivity.
+Qed.
+
+(* ---- M8, dictionaries ---- *)
+Theorem main_dict : forall fx cfg f items cfg' sec key opts o ek st,
+  wf_config cfg = true -> wf_items (all_actions cfg) false items -> count_pos items = 1%nat ->
+  main fx cfg f (argv_of items) = Ok cfg' ->
+  assoc sec cfg = Some opts -> assoc key opts = Some o -> o_cls (o_static o) = CDict ek st ->
+  exists o' fbs cbs kes, opt_at cfg' sec key = Some o' /\
+    bindings_of opts key (section_items sec (map (fs_lookup f) (config_names items))) = Some fbs /\
+    occs_bindings st (map snd (occs_for (o_name (o_static o)) items)) = Some cbs /\
+    Forall2 (converted ek) (fbs ++ cbs) kes /\
+    o_value o' = VDict (dict_after [] kes).
+Proof.
+  intros fx cfg f items cfg' sec key opts o ek st W WI C H A K CD.
+  unfold main in H. rewrite (parse_args_eq _ _ WI C) in H. apply bind_ok in H. destruct H as [d [HD HL]].
+  destruct (layering_dict_wf fx cfg f d cfg' sec key opts o ek st W HL A K CD) as [files [o' [fbs [cbs [kes [F [R [ST [B1 [B2 [F2 V]]]]]]]]]]].
+  rewrite (config_files_of_items cfg f items d W WI HD) in F. inversion F; subst files.
+  exists o', fbs, cbs, kes. split; [exact R|]. split; [exact B1|]. split; [|split; assumption].
+  assert (DA := data_append (o_name (o_static o)) items [] d HD).
+  assert (SC : forall a args, In (a, args) (occs_for (o_name (o_static o)) items) -> append_act a = true).
+  { intros a args I. destruct (occs_for_registered _ _ _ _ _ _ WI I) as [flag [AF [FD _]]].
+    assert (X := wf_actions_for_option cfg o flag a W (in_all_opts _ _ _ _ _ A K) AF FD). rewrite CD in X. exact X. }
+  specialize (DA SC (or_introl eq_refl)). unfold cmd_bindings in B2.
+  destruct (occs_for (o_name (o_static o)) items) as [|o1 os]; rewrite DA in B2; exact B2.
+Qed.
+
+(* ================================================================================================= *)
+(* Part 11: list entries as written in a file.  Spec: a list is written as its words separated by blanks; a word is written
+   as it is when it is non-empty and has no blank, quote or backslash, or between single quotes when it has no single quote. *)
+Definition plain_char (c : Z) : bool := negb (sh_ws c) && negb (sh_quote c) && negb (c =? 92).
+Definition word_ok (qw : bool * str) : bool :=
+  if fst qw then forallb (fun c => negb (c =? 39)) (snd qw)
+  else negb (str_eqb (snd qw) []) && forallb plain_char (snd qw).
+Definition pr_word (qw : bool * str) : str := if fst qw then 39 :: snd qw ++ [39] else snd qw.
+Definition pr_words (l : list (bool * str)) : str :=
+  match l with [] => [] | w :: r => pr_word w ++ flat_map (fun x => 32 :: pr_word x) r end.
+
+Lemma shlex_in_quote : forall w rest tok q0 acc, forallb (fun c => negb (c =? 39)) w = true ->
+  shlex_go (w ++ 39 :: rest) (ShQuote 39) tok q0 acc = shlex_go rest ShWord (rev w ++ tok) true acc.
+Proof.
+  induction w as [|c w IH]; intros rest tok q0 acc H; cbn [app shlex_go].
+  - rewrite Z.eqb_refl. reflexivity.
+  - cbn in H. apply andb_true_iff in H. destruct H as [H1 H2]. apply negb_true_iff in H1. rewrite H1.
+    replace ((c =? 92) && (39 =? 34)) with false by (rewrite andb_false_r; reflexivity).
+    rewrite IH; [|exact H2]. cbn [rev]. rewrite <- app_assoc. reflexivity.
+Qed.
+
+Lemma shlex_in_word : forall w rest tok q acc, forallb plain_char w = true ->
+  shlex_go (w ++ rest) ShWord tok q acc = shlex_go rest ShWord (rev w ++ tok) q acc.
+Proof.
+  induction w as [|c w IH]; intros rest tok q acc H; cbn [app]; [reflexivity|].
+  cbn in H. apply andb_true_iff in H. destruct H as [H1 H2]. unfold plain_char in H1.
+  apply andb_true_iff in H1. destruct H1 as [H1 H3]. apply andb_true_iff in H1. destruct H1 as [H0 H1].
+  apply negb_true_iff in H0, H1, H3. cbn [shlex_go]. rewrite H0, H1, H3.
+  rewrite IH; [|exact H2]. cbn [rev]. rewrite <- app_assoc. reflexivity.
+Qed.
+
+(* one written word, read from the blank state: the scanner is then inside a word holding exactly that word *)
+Lemma shlex_word : forall qw rest acc, word_ok qw = true ->
+  exists q, shlex_go (pr_word qw ++ rest) ShWs [] false acc = shlex_go rest ShWord (rev (snd qw)) q acc /\
+            (negb (str_eqb (rev (snd qw)) []) || q = true).
+Proof.
+  intros [q w] rest acc H. unfold word_ok, pr_word in *. cbn [fst snd] in *. destruct q.
+  - exists true. split; [|apply orb_true_r]. cbn [app]. cbn [shlex_go].
+    change (sh_ws 39) with false. change (39 =? 92) with false. change (sh_quote 39) with true. cbn iota.
+    rewrite <- app_assoc. cbn [app]. rewrite shlex_in_quote; [|exact H]. rewrite app_nil_r. reflexivity.
+  - apply andb_true_iff in H. destruct H as [NE PL]. destruct w as [|c w]; [discriminate|]. exists false.
+    cbn in PL. apply andb_true_iff in PL. destruct PL as [P1 P2]. assert (P1' := P1). unfold plain_char in P1.
+    apply andb_true_iff in P1. destruct P1 as [P1 P3]. apply andb_true_iff in P1. destruct P1 as [P0 P1].
+    apply negb_true_iff in P0, P1, P3. split.
+    + cbn [app shlex_go]. rewrite P0, P3, P1. rewrite shlex_in_word; [|exact P2]. cbn [rev]. reflexivity.
+    + rewrite orb_false_r. apply negb_true_iff. apply str_eqb_neq. cbn [rev]. intro E. apply app_eq_nil in E. destruct E; discriminate.
+Qed.
+
+Lemma shlex_rest : forall r tok q acc, forallb word_ok r = true -> negb (str_eqb tok []) || q = true ->
+  shlex_go (flat_map (fun x => 32 :: pr_word x) r) ShWord tok q acc = Ok (rev acc ++ rev tok :: map snd r).
+Proof.
+  induction r as [|w r IH]; intros tok q acc H E; cbn [flat_map].
+  - cbn [shlex_go]. rewrite E. cbn [rev]. reflexivity.
+  - cbn in H. apply andb_true_iff in H. destruct H as [H1 H2].
+    cbn [app shlex_go]. change (sh_ws 32) with true. cbn iota. rewrite E.
+    destruct (shlex_word w (flat_map (fun x => 32 :: pr_word x) r) (rev tok :: acc) H1) as [q' [G1 G2]].
+    rewrite G1, IH; [|exact H2|exact G2]. cbn [rev map]. rewrite rev_involutive, <- app_assoc. reflexivity.
+Qed.
+
+(* M9: any list of words, written as above, is read back by the Model of shlex.split as exactly those words *)
+Theorem shlex_roundtrip : forall l, forallb word_ok l = true -> shlex_split (pr_words l) = Ok (map snd l).
+Proof.
+  intros [|w r] H; [reflexivity|]. cbn in H. apply andb_true_iff in H. destruct H as [H1 H2].
+  unfold shlex_split, pr_words.
+  destruct (shlex_word w (flat_map (fun x => 32 :: pr_word x) r) [] H1) as [q [G1 G2]].
+  rewrite G1, shlex_rest; [|exact H2|exact G2]. cbn [rev app map]. rewrite rev_involutive. reflexivity.
+Qed.
+
+(* ================================================================================================= *)
+(* Part 12: integers.  The decimal spelling of every integer (str(int), which is also what %(k)s / %(k)d print) is read back by
+   the Model of int() as that integer. *)
+Definition dstep (a c : Z) : Z := a * 10 + (c - 48).
+
+Lemma read_digits_all : forall s a n, forallb is_digit s = true ->
+  read_digits s a n = (fold_left dstep s a, (n + length s)%nat, []).
+Proof.
+  induction s as [|c s IH]; intros a n H; cbn [read_digits fold_left length].
+  - rewrite Nat.add_0_r. reflexivity.
+  - cbn in H. apply andb_true_iff in H. destruct H as [H1 H2]. rewrite H1, IH; [|exact H2].
+    replace (S n + length s)%nat with (n + S (length s))%nat by lia. reflexivity.
+Qed.
+
+Lemma is_digit_add : forall m, 0 <= m < 10 -> is_digit (48 + m) = true.
+Proof. intros m H. unfold is_digit. apply andb_true_iff. split; apply Z.leb_le; lia. Qed.
+
+Lemma digits_fuel_spec : forall f n sfx, 0 <= n -> (Z.to_nat (Z.log2 n) < f)%nat ->
+  exists D, digits_fuel f n sfx = D ++ sfx /\ D <> [] /\ forallb is_digit D = true /\
+            forall a, fold_left dstep D a = a * 10 ^ Z.of_nat (length D) + n.
+Proof.
+  induction f as [|f IH]; intros n sfx Hn Hf; [lia|]. cbn [digits_fuel].
+  assert (M := Z.mod_pos_bound n 10 ltac:(lia)).
+  destruct (n / 10 =? 0) eqn:E.
+  - apply Z.eqb_eq in E. assert (n = n mod 10) by (rewrite (Z.div_mod n 10) at 1; lia).
+    exists [48 + n mod 10]. split; [reflexivity|]. split; [discriminate|]. split.
+    + cbn [forallb]. rewrite is_digit_add by exact M. reflexivity.
+    + intro a. cbn [fold_left length]. unfold dstep. change (10 ^ Z.of_nat 1) with 10. lia.
+  - apply Z.eqb_neq in E. assert (Q : 0 < n / 10) by (assert (0 <= n / 10) by (apply Z.div_pos; lia); lia).
+    assert (Npos : 0 < n) by (destruct (Z.eq_dec n 0); [subst; cbn in Q; lia|lia]).
+    assert (L : Z.log2 (n / 10) < Z.log2 n).
+    { apply Z.log2_lt_pow2; [exact Q|]. destruct (Z.log2_spec n Npos) as [_ S2].
+      rewrite Z.pow_succ_r in S2 by apply Z.log2_nonneg. apply Z.div_lt_upper_bound; [lia|].
+      assert (0 < 2 ^ Z.log2 n) by (apply Z.pow_pos_nonneg; [lia|apply Z.log2_nonneg]). lia. }
+    destruct (IH (n / 10) ((48 + n mod 10) :: sfx)) as [D [E1 [E2 [E3 E4]]]]; [lia| |].
+    { assert (0 <= Z.log2 (n / 10)) by apply Z.log2_nonneg. lia. }
+    exists (D ++ [48 + n mod 10]). split; [rewrite E1, <- app_assoc; reflexivity|]. split; [intro X; apply app_eq_nil in X; destruct X; discriminate|]. split.
+    + rewrite forallb_app, E3. cbn [forallb]. rewrite is_digit_add by exact M. reflexivity.
+    + intro a. rewrite fold_left_app, E4. cbn [fold_left]. unfold dstep. rewrite app_length. cbn [length].
+      replace (length D + 1)%nat with (S (length D)) by lia. rewrite Nat2Z.inj_succ, Z.pow_succ_r by lia.
+      rewrite (Z.div_mod n 10) at 3 by lia. ring.
+Qed.
+
+Lemma digit_facts : forall c, is_digit c = true -> is_ascii c = true /\ is_cspace c = false /\ (c =? 95) = false /\ 48 <= c <= 57.
+Proof.
+  intros c H. unfold is_digit in H. apply andb_true_iff in H. destruct H as [H1 H2]. apply Z.leb_le in H1, H2.
+  split; [|split; [|split; [|lia]]].
+  - unfold is_ascii. apply andb_true_iff. split; [apply Z.leb_le|apply Z.ltb_lt]; lia.
+  - unfold is_cspace. apply orb_false_iff. split; [apply Z.eqb_neq; lia|]. apply andb_false_iff. right. apply Z.leb_gt. lia.
+  - apply Z.eqb_neq. lia.
+Qed.
+
+Lemma clstrip_id : forall s, forallb (fun c => negb (is_cspace c)) s = true -> clstrip s = s.
+Proof. intros [|c s] H; [reflexivity|]. cbn in H |- *. apply andb_true_iff in H. destruct H as [H _]. apply negb_true_iff in H. rewrite H. reflexivity. Qed.
+
+Lemma cstrip_id : forall s, forallb (fun c => negb (is_cspace c)) s = true -> cstrip s = s.
+Proof.
+  intros s H. unfold cstrip. rewrite (clstrip_id s H). rewrite clstrip_id; [apply rev_involutive|].
+  apply forallb_forall. intros x I. apply in_rev in I. rewrite forallb_forall in H. apply H. exact I.
+Qed.
+
+Lemma strip_underscores_digits : forall D b, forallb is_digit D = true -> strip_underscores D b = Some D.
+Proof.
+  induction D as [|c D IH]; intros b H; cbn [strip_underscores]; [reflexivity|].
+  cbn in H. apply andb_true_iff in H. destruct H as [H1 H2]. destruct (digit_facts c H1) as [_ [_ [U _]]]. rewrite U, IH; [reflexivity|exact H2].
+Qed.
+
+Lemma read_sign_digit : forall c r, is_digit c = true -> read_sign (c :: r) = (false, c :: r).
+Proof.
+  intros c r H. destruct (digit_facts c H) as [_ [_ [_ B]]].
+  assert (X : c = 48 \/ c = 49 \/ c = 50 \/ c = 51 \/ c = 52 \/ c = 53 \/ c = 54 \/ c = 55 \/ c = 56 \/ c = 57) by lia.
+  repeat (destruct X as [X|X]; [subst c; reflexivity|]). subst c. reflexivity.
+Qed.
+
+(* M10 *)
+Theorem int_roundtrip : forall z, parse_int (str_of_Z z) = Ok z.
+Proof.
+  intro z. unfold str_of_Z.
+  destruct (digits_fuel_spec (S (Z.to_nat (Z.log2 (Z.abs z)))) (Z.abs z) [] (Z.abs_nonneg z) ltac:(lia)) as [D [E1 [E2 [E3 E4]]]].
+  rewrite app_nil_r in E1. rewrite E1.
+  assert (AS : forallb is_ascii D = true) by (apply forallb_forall; intros x I; rewrite forallb_forall in E3; apply (digit_facts x (E3 x I))).
+  assert (NS : forallb (fun c => negb (is_cspace c)) D = true).
+  { apply forallb_forall. intros x I. rewrite forallb_forall in E3. destruct (digit_facts x (E3 x I)) as [_ [S0 _]]. rewrite S0. reflexivity. }
+  assert (RD : read_digits D 0 0 = (Z.abs z, length D, [])).
+  { rewrite read_digits_all by exact E3. rewrite E4. cbn [Nat.add]. rewrite Z.mul_0_l, Z.add_0_l. reflexivity. }
+  destruct D as [|d D']; [contradiction|].
+  assert (Dd : is_digit d = true) by (cbn in E3; apply andb_true_iff in E3; apply E3).
+  unfold parse_int. destruct (z <? 0) eqn:Neg.
+  - change (forallb is_ascii (45 :: d :: D')) with (is_ascii 45 && forallb is_ascii (d :: D')). rewrite AS. cbn [andb negb is_ascii].
+    change (negb ((0 <=? 45) && (45 <? 128))) with false. cbn iota.
+    rewrite cstrip_id by (change (forallb (fun c => negb (is_cspace c)) (45 :: d :: D')) with (negb (is_cspace 45) && forallb (fun c => negb (is_cspace c)) (d :: D')); rewrite NS; reflexivity).
+    cbn [read_sign]. rewrite strip_underscores_digits by exact E3. rewrite RD. cbn [length]. apply Z.ltb_lt in Neg. change (is_ascii 45) with true. cbn [andb negb]. f_equal. lia.
+  - rewrite AS. cbn [negb]. rewrite cstrip_id by exact NS. rewrite read_sign_digit by exact Dd.
+    rewrite strip_underscores_digits by exact E3. rewrite RD. cbn [length]. apply Z.ltb_ge in Neg. f_equal. lia.
+Qed.
+
+(* ================================================================================================= *)
+(* Part 13: dictionary lines as written.  Spec: `key = k1=v1, k2=v2, ...` -- bindings separated by ", ", a binding written k=v,
+   k without "," and "=", v without ",", both without blanks at their ends -- is read as exactly those bindings. *)
+Definition no_char (c : Z) (s : str) : bool := forallb (fun x => negb (x =? c)) s.
+Definition kv_ok (kv : str * str) : bool :=
+  no_char 44 (fst kv) && no_char 61 (fst kv) && no_char 44 (snd kv) &&
+  str_eqb (strip (fst kv)) (fst kv) && str_eqb (strip (snd kv)) (snd kv).
+Definition pr_kv (kv : str * str) : str := fst kv ++ 61 :: snd kv.
+Definition pr_dict (l : list (str * str)) : str :=
+  match l with [] => [] | p :: r => pr_kv p ++ flat_map (fun x => 44 :: 32 :: pr_kv x) r end.
+
+Lemma split_on_word : forall sep w cur, no_char sep w = true -> split_on sep w cur = [rev cur ++ w].
+Proof.
+  intros sep. induction w as [|c w IH]; intros cur H; cbn [split_on]; [rewrite app_nil_r; reflexivity|].
+  cbn in H. apply andb_true_iff in H. destruct H as [H1 H2]. apply negb_true_iff in H1. rewrite H1, IH by exact H2.
+  cbn [rev]. rewrite <- app_assoc. reflexivity.
+Qed.
+
+Lemma split_on_sep : forall sep w rest cur, no_char sep w = true ->
+  split_on sep (w ++ sep :: rest) cur = (rev cur ++ w) :: split_on sep rest [].
+Proof.
+  intros sep. induction w as [|c w IH]; intros rest cur H; cbn [app split_on].
+  - rewrite Z.eqb_refl, app_nil_r. reflexivity.
+  - cbn in H. apply andb_true_iff in H. destruct H as [H1 H2]. apply negb_true_iff in H1. rewrite H1, IH by exact H2.
+    cbn [rev]. rewrite <- app_assoc. reflexivity.
+Qed.
+
+Lemma split_once_sep : forall sep w rest cur, no_char sep w = true ->
+  split_once sep (w ++ sep :: rest) cur = [rev cur ++ w; rest].
+Proof.
+  intros sep. induction w as [|c w IH]; intros rest cur H; cbn [app split_once].
+  - rewrite Z.eqb_refl, app_nil_r. reflexivity.
+  - cbn in H. apply andb_true_iff in H. destruct H as [H1 H2]. apply negb_true_iff in H1. rewrite H1, IH by exact H2.
+    cbn [rev]. rewrite <- app_assoc. reflexivity.
+Qed.
+
+Lemma no_char_app : forall c a b, no_char c (a ++ b) = no_char c a && no_char c b.
+Proof. intros. unfold no_char. apply forallb_app. Qed.
+
+Lemma kv_ok_parts : forall kv, kv_ok kv = true ->
+  no_char 44 (fst kv) = true /\ no_char 61 (fst kv) = true /\ no_char 44 (snd kv) = true /\ strip (fst kv) = fst kv /\ strip (snd kv) = snd kv.
+Proof.
+  intros kv H. unfold kv_ok in H. repeat (apply andb_true_iff in H; destruct H as [H ?]).
+  repeat split; try assumption; apply str_eqb_eq; assumption.
+Qed.
+
+Lemma pr_kv_no_comma : forall kv, kv_ok kv = true -> no_char 44 (pr_kv kv) = true.
+Proof.
+  intros kv H. destruct (kv_ok_parts _ H) as [A [_ [C _]]]. unfold pr_kv. rewrite no_char_app, A. cbn. exact C.
+Qed.
+
+Lemma strip_blank : forall s, strip (32 :: s) = strip s.
+Proof. intro s. unfold strip. cbn [lstrip]. change (is_space 32) with true. reflexivity. Qed.
+
+Lemma split_dict : forall r p, kv_ok p = true -> forallb kv_ok r = true ->
+  split_on 44 (pr_kv p ++ flat_map (fun x => 44 :: 32 :: pr_kv x) r) [] = pr_kv p :: map (fun x => 32 :: pr_kv x) r.
+Proof.
+  induction r as [|q r IH]; intros p Hp Hr; cbn [flat_map map].
+  - rewrite app_nil_r. apply (split_on_word 44 (pr_kv p) []). apply pr_kv_no_comma. exact Hp.
+  - cbn in Hr. apply andb_true_iff in Hr. destruct Hr as [Hq Hr]. cbn [app].
+    rewrite (split_on_sep 44 (pr_kv p) _ [] (pr_kv_no_comma _ Hp)). cbn [rev app]. f_equal.
+    change (32 :: pr_kv q ++ flat_map (fun x => 44 :: 32 :: pr_kv x) r) with ((32 :: pr_kv q) ++ flat_map (fun x => 44 :: 32 :: pr_kv x) r).
+    assert (G : forall w, no_char 44 w = true ->
+                split_on 44 (w ++ flat_map (fun x => 44 :: 32 :: pr_kv x) r) [] = w :: map (fun x => 32 :: pr_kv x) r).
+    { clear -Hr. induction r as [|q2 r IHr]; intros w Hw; cbn [flat_map map].
+      - rewrite app_nil_r. apply (split_on_word 44 w []). exact Hw.
+      - cbn in Hr. apply andb_true_iff in Hr. destruct Hr as [Hq2 Hr]. cbn [app].
+        rewrite (split_on_sep 44 w _ [] Hw). cbn [rev app]. f_equal.
+        change (32 :: pr_kv q2 ++ flat_map (fun x => 44 :: 32 :: pr_kv x) r) with ((32 :: pr_kv q2) ++ flat_map (fun x => 44 :: 32 :: pr_kv x) r).
+        apply IHr; [exact Hr|]. cbn. apply pr_kv_no_comma. exact Hq2. }
+    apply G. cbn. apply pr_kv_no_comma. exact Hq.
+Qed.
+
+Lemma entry_of_kv : forall kv (lead : bool), kv_ok kv = true ->
+  split_once 61 ((if lead then [32] else []) ++ pr_kv kv) [] = [(if lead then [32] else []) ++ fst kv; snd kv] /\
+  strip ((if lead then [32] else []) ++ fst kv) = fst kv.
+Proof.
+  intros kv lead H. destruct (kv_ok_parts _ H) as [_ [B [_ [D _]]]]. unfold pr_kv. split.
+  - rewrite app_assoc. rewrite split_once_sep; [reflexivity|]. destruct lead; cbn [app]; [cbn; exact B|exact B].
+  - destruct lead; cbn [app]; [rewrite strip_blank|]; exact D.
+Qed.
+
+Lemma entry_pairs_rest : forall r, forallb kv_ok r = true -> entry_pairs_l (map (fun x => 32 :: pr_kv x) r) = Some r.
+Proof.
+  induction r as [|[k v] r IH]; intro H; cbn [map entry_pairs_l]; [reflexivity|].
+  cbn in H. apply andb_true_iff in H. destruct H as [H1 H2].
+  destruct (entry_of_kv (k, v) true H1) as [E1 E2]. cbn [app fst snd] in E1, E2. rewrite E1, (IH H2), E2.
+  destruct (kv_ok_parts _ H1) as [_ [_ [_ [_ E]]]]. cbn [snd] in E. rewrite E. reflexivity.
+Qed.
+
+(* M11 *)
+Theorem dict_line_roundtrip : forall p r, forallb kv_ok (p :: r) = true -> entry_pairs (pr_dict (p :: r)) = Some (p :: r).
+Proof.
+  intros [k v] r H. cbn in H. apply andb_true_iff in H. destruct H as [H1 H2].
+  unfold entry_pairs, pr_dict. rewrite (split_dict r (k, v) H1 H2). cbn [entry_pairs_l].
+  destruct (entry_of_kv (k, v) false H1) as [E1 E2]. cbn [app fst snd] in E1, E2. rewrite E1, (entry_pairs_rest r H2), E2.
+  destruct (kv_ok_parts _ H1) as [_ [_ [_ [_ E]]]]. cbn [snd] in E. rewrite E. reflexivity.
 Qed.
